@@ -140,6 +140,24 @@ ADDED.update({
 ROUND = {"C": 1, "w2": 2, "w3": 3, "w4": 4, "w5": 5, "w6": 6, "w7": 7, "w8": 8, "w9": 9, "w10": 10}
 
 
+def write_design():
+    """Replace the text between the SEEDTABLE markers of DESIGN.md by the compact table."""
+    import io
+    import contextlib
+    buf = io.StringIO()
+    sys.argv = [a for a in sys.argv if a != "--write-design"]
+    with contextlib.redirect_stdout(buf):
+        main()
+    root = os.path.dirname(os.path.dirname(os.path.abspath(__file__)))
+    p = os.path.join(root, "DESIGN.md")
+    s = open(p).read()
+    a = s.index("<!-- SEEDTABLE-BEGIN")
+    a = s.index("\n", a) + 1
+    b = s.index("<!-- SEEDTABLE-END -->")
+    open(p, "w").write(s[:a] + buf.getvalue() + s[b:])
+    print("DESIGN.md: seed table written (%d lines)" % buf.getvalue().count("\n"))
+
+
 def main():
     long = "--long" in sys.argv
     rows = []
@@ -174,4 +192,7 @@ def main():
 
 
 if __name__ == "__main__":
-    main()
+    if "--write-design" in sys.argv:
+        write_design()
+    else:
+        main()
